@@ -89,6 +89,16 @@ pub fn exec(op: &str, args: &[&str]) -> String {
                 "i128" => BigDecimal::deserialize(IntoDeserializer::<VErr>::into_deserializer(v.parse::<i128>().unwrap())),
                 "f32" => BigDecimal::deserialize(IntoDeserializer::<VErr>::into_deserializer(f32::from_bits(v.parse::<u32>().unwrap()))),
                 "f64" => BigDecimal::deserialize(IntoDeserializer::<VErr>::into_deserializer(f64::from_bits(v.parse::<u64>().unwrap()))),
+                // values of other types must be rejected with an error value (no panic, no number)
+                "bool" => BigDecimal::deserialize(IntoDeserializer::<VErr>::into_deserializer(v == "1")),
+                "unit" => BigDecimal::deserialize(IntoDeserializer::<VErr>::into_deserializer(())),
+                "char" => BigDecimal::deserialize(IntoDeserializer::<VErr>::into_deserializer(v.chars().next().unwrap_or('x'))),
+                "seq" => BigDecimal::deserialize(IntoDeserializer::<VErr>::into_deserializer(vec![1u8, 2, 3])),
+                "map" => {
+                    let mut m = std::collections::BTreeMap::new();
+                    m.insert(v.to_string(), 1u8);
+                    BigDecimal::deserialize(IntoDeserializer::<VErr>::into_deserializer(m))
+                }
                 _ => panic!("no such token kind"),
             };
             render(r.ok())
@@ -161,6 +171,10 @@ pub fn generate(rng: &mut Rng, tier: &str, shard: usize, nshards: usize, out: &m
                 emit(format!("C17\ttoken\t{}\t{}", k, v), &mut n);
             }
         }
+    }
+    // values of other types handed over by a format: error value, never a number or a panic
+    for (k, v) in [("bool", "1"), ("bool", "0"), ("unit", "0"), ("char", "7"), ("char", "x"), ("seq", "0"), ("map", "k"), ("map", "$serde_json::private::Number")] {
+        emit(format!("C17\ttoken\t{}\t{}", k, v), &mut n);
     }
     emit("C17\tjsonopt_de\tnull".to_string(), &mut n);
     emit("C17\tjsonopt_ser\tnull".to_string(), &mut n);
